@@ -188,6 +188,11 @@ def list_family(tier):
         rn = ["_ret"] if nret == 1 else [f"_ret.{k}" for k in range(nret)]
         for k in range(nret):
             defs.append((rn[k], ex(avail, r.choice((1, 2, 3)))))
+            # arbitrary well-formed lists may re-define an intermediate (or shadow an input) BETWEEN two return definitions:
+            # an earlier return bit keeps the value it had when it was defined
+            if k < nret - 1 and r.random() < 0.5:
+                tgt = r.choice([a for a in avail if a not in vs] or avail)
+                defs.append((tgt, ex(avail, r.choice((1, 2)))))
         out.append(dict(vars=vs, defs=defs, rets=rn))
     out += [
         dict(vars=["a", "b", "c"], defs=[("_ret", "Or(And(a, b, c), And(Not(a), Not(b), Not(c)))")], rets=["_ret"]),
@@ -195,6 +200,8 @@ def list_family(tier):
         dict(vars=["a", "b"], defs=[("_ret.0", "ITE(a, b, Not(b))"), ("_ret.1", "Implies(a, b)")], rets=["_ret.0", "_ret.1"]),
         dict(vars=["a", "b", "c"], defs=[("t0", "Or(a, b, c)"), ("_ret", "Or(t0, And(a, b))")], rets=["_ret"]),
         dict(vars=["a"], defs=[("_ret", "a")], rets=["_ret"]),
+        dict(vars=["a", "b", "c"], defs=[("t", "And(a, b)"), ("_ret.0", "Or(t, c)"), ("t", "Not(c)"), ("_ret.1", "Xor(t, a)")], rets=["_ret.0", "_ret.1"]),
+        dict(vars=["a", "b"], defs=[("_ret.0", "And(a, b)"), ("a", "Not(a)"), ("_ret.1", "Or(a, b)")], rets=["_ret.0", "_ret.1"]),
         dict(vars=["a", "b"], defs=[("_ret", "true")], rets=["_ret"]),
     ]
     return out
